@@ -217,12 +217,35 @@ func (g bGamma) verBack(v versions.Version) int {
 	return -1
 }
 
+// vset renders an allowed set. Where the abstract set is "everything" or an upper range it is
+// given by membership (versions.All / AtLeast) rather than by enumeration, after checking on the
+// version table that membership is what the abstract set says.
 func (g bGamma) vset(al []int) versions.Set {
 	vs := []versions.Version{}
+	in := map[int]bool{}
 	for _, i := range al {
 		vs = append(vs, g.ver(i))
+		in[i] = true
 	}
-	return versions.Selection(vs...)
+	sel := versions.Selection(vs...)
+	if g.seed%2 == 1 || len(al) == 0 {
+		return sel
+	}
+	var cand versions.Set
+	switch {
+	case in[1] && in[2] && in[3]:
+		cand = versions.All
+	case !in[1] && in[2] && in[3]:
+		cand = versions.AtLeast(g.ver(2))
+	default:
+		return sel
+	}
+	for i := 1; i <= 3; i++ {
+		if cand.Has(g.ver(i)) != in[i] {
+			return sel
+		}
+	}
+	return cand
 }
 
 func pkgName(p sourceaddrs.RemotePackage) string {
@@ -290,7 +313,22 @@ func (d bDiag) Description() sourcebundle.DiagDescription {
 	return sourcebundle.DiagDescription{Summary: "finder diagnostic", Detail: "reported by the scripted finder"}
 }
 func (d bDiag) Source() sourcebundle.DiagSource {
-	return sourcebundle.DiagSource{Subject: &sourcebundle.SourceRange{Filename: d.file}}
+	return sourcebundle.DiagSource{
+		Subject: &sourcebundle.SourceRange{Filename: d.file, Start: sourcebundle.SourcePos{Line: 3, Column: 1, Byte: 20}, End: sourcebundle.SourcePos{Line: 3, Column: 9, Byte: 28}},
+		Context: &sourcebundle.SourceRange{Filename: "main", Start: sourcebundle.SourcePos{Line: 1, Column: 1, Byte: 0}, End: sourcebundle.SourcePos{Line: 9, Column: 1, Byte: 90}},
+	}
+}
+
+// diagIntact: the ranges a finder diagnostic carries after the builder wrapped it
+func diagIntact(d sourcebundle.Diagnostic) bool {
+	src := d.Source()
+	if src.Subject == nil || src.Context == nil {
+		return false
+	}
+	ps, perr := sourceaddrs.ParseRemoteSource(src.Subject.Filename)
+	pc, cerr := sourceaddrs.ParseRemoteSource(src.Context.Filename)
+	return perr == nil && cerr == nil && ps.SubPath() == "m/f" && pc.SubPath() == "main" && ps.Package() == pc.Package() &&
+		src.Subject.Start.Line == 3 && src.Subject.End.Byte == 28 && src.Context.Start.Line == 1 && src.Context.End.Byte == 90
 }
 func (d bDiag) ExtraInfo() interface{} { return nil }
 
@@ -368,6 +406,9 @@ func (e *bEnv) FetchSourcePackage(ctx context.Context, sourceType string, u *url
 				// links, an empty directory and odd modes travel with this content id
 				os.Symlink("main", filepath.Join(targetDir, "lnk"))
 				os.Symlink("../main", filepath.Join(targetDir, "m", "up"))
+				// link targets that are not in their shortest form must survive as written
+				os.Symlink("./main", filepath.Join(targetDir, "lnk2"))
+				os.Symlink("../m/../main", filepath.Join(targetDir, "m", "up2"))
 				os.Mkdir(filepath.Join(targetDir, "empty"), 0750)
 				os.WriteFile(filepath.Join(targetDir, "exe"), []byte(fmt.Sprintf("content-%d exe", f.Content)), 0755)
 				os.Chmod(filepath.Join(targetDir, "m", "f"), 0600)
@@ -476,6 +517,9 @@ func (e *bEnv) tracer() *sourcebundle.BuildTracer {
 				}
 				// the file name must have been rewritten to an address inside the analysed package
 				want := ""
+				if !diagIntact(d) {
+					e.obs.DiagsOK = false
+				}
 				if p, err := sourceaddrs.ParseRemoteSource(d.Source().Subject.Filename); err == nil {
 					want = pkgName(p.Package())
 					if p.SubPath() != "m/f" {
@@ -544,8 +588,7 @@ func (e *bEnv) build(adds []bAdd, wantClose bool) *sourcebundle.Bundle {
 				continue
 			}
 			e.obs.diagRet++
-			ps, perr := sourceaddrs.ParseRemoteSource(d.Source().Subject.Filename)
-			if d.Description().Detail != "reported by the scripted finder" || perr != nil || ps.SubPath() != "m/f" {
+			if d.Description().Detail != "reported by the scripted finder" || !diagIntact(d) {
 				e.obs.DiagsOK = false
 			}
 		}
